@@ -2,7 +2,7 @@
 from trkgen import *
 
 ID = "C03"
-THEOREM_MODULES = ["SimVerif.Props.C03", "SimVerif.Props.C03b", "SimVerif.Props.C03c", "SimVerif.Tie.Epoch", "SimVerif.Tie.AutoWaste"]
+THEOREM_MODULES = ["SimVerif.Props.C03", "SimVerif.Props.C03b", "SimVerif.Props.C03c", "SimVerif.Tie.Epoch", "SimVerif.Tie.AutoWaste", "SimVerif.Props.C03s"]
 THEOREM_MODULE = "SimVerif.Props.C03"
 NONTRIVIAL_FLAGS = {"expired-uncollected", "expired-uncollected-in-scene", "handed-out", "gc-runs", "clear-nonempty", "skip", "idle-nonempty", "multi-scene-store"}
 RULE = ("random interleavings of predict (possibly empty), skip_epochs, wasted, idle_tracks, clear_wasted, set_auto_waste (0,1,3,100), epoch over 1..3 scenes, max_idle 0..3, shards 1..4, Sort and BatchSort (IoU / Mahalanobis); "
@@ -36,7 +36,7 @@ def shape_key(case, results):
             return "trk-" + t[1] + ("-expired-uncollected" if any(f.startswith("expired-uncollected") for f in r.flags) else "")
     return "none"
 
-SOURCE_TIE = "Source-level tie by proof (Tie/Epoch): EpochDb::baked, next_epoch, skip_epochs_for_scene, current_epoch_with_scene as regenerated from the source equal the model's expiry rule and epoch counters (one scene changes, by exactly 1 / n)."
+SOURCE_TIE = "Source-level tie by proof (Tie/Epoch, Tie/AutoWaste, Props/C03s): the collection countdown at the head of the four predict functions and set_auto_waste equal the model's awStep / setAutoWaste; EpochDb::baked, next_epoch, skip_epochs_for_scene, current_epoch_with_scene as regenerated from the source equal the model's expiry rule and epoch counters (one scene changes, by exactly 1 / n)."
 LEVEL_TEXT = LEVEL_TEXT + " " + SOURCE_TIE
 TRUSTED_BASE = TRUSTED_BASE + ["translator/kernels.py + rustexpr.py (reader of the Rust subset, per-function tables) for the functions named in SOURCE_TIE; generated definitions are proof obligations (Tie modules) on every run"]
 TECHNIQUE = TECHNIQUE + "; model regenerated from the source by a translator for the functions of SOURCE_TIE, tied by proof"
